@@ -227,7 +227,10 @@ static void advertising_check(Server& srv) {
             if (got > n || got > 31) { verif::violation("C14", which ? "C14:scan:returns_more_than_buffer" : "C14:adv:returns_more_than_buffer", w, n); continue; }
             const bytes p(buf.data(), buf.data() + got);
             std::vector<ad_item> items; std::string why;
-            if (!parse_ad(p, items, why)) { verif::violation("C14", which ? "C14:scan:ad_structures_do_not_tile" : "C14:adv:ad_structures_do_not_tile", w + " " + why + " payload=" + verif::hex(p), n); continue; }
+            const bool custom_data = which ? am_.has_custom_scan : am_.has_custom_adv;
+            // user supplied data is copied verbatim (cut to the buffer): its structure is the user's business
+            if (custom_data) parse_ad(p, items, why);
+            else if (!parse_ad(p, items, why)) { verif::violation("C14", which ? "C14:scan:ad_structures_do_not_tile" : "C14:adv:ad_structures_do_not_tile", w + " " + why + " payload=" + verif::hex(p), n); continue; }
             M.nontrivial(verif::mix(verif::hstr(decl::declaration_name), which * 64 + n + 1000 * items.size()));
             const bool custom = which ? am_.has_custom_scan : am_.has_custom_adv;
             if (custom) {
